@@ -9,7 +9,7 @@ Supported subset (anything else raises Untranslatable and the run reports a brok
                | assert … (skipped) | docstrings
   expressions  names / self.attr (mapped through `env`), int / float literals, + - * / unary -, e ** k for a
                literal exponent k in {2, -2, 0.5, -0.5, -1} (also written -1/2, 1/2), calls listed in CALLS,
-               comparisons < <= > >= in conditions
+               comparisons < <= > >= in conditions; with ty="ℕ": + * // % on non-negative ints
 The emitted definition is a chain of `let`s ending in the returned expression (or, for a method that
 updates `self.<result>`, in that attribute's final value).
 """
@@ -54,7 +54,8 @@ def const_value(n):
 
 
 class Fn:
-    def __init__(self, env, calls=None, user_fns=None):
+    def __init__(self, env, calls=None, user_fns=None, ty="ℝ"):
+        self.ty = ty                    # "ℝ" (real arithmetic) or "ℕ" (non-negative Python ints: // and % allowed, no - or /)
         self.env = dict(env)            # python name / "self.attr" -> lean identifier
         self.calls = dict(CALLS, **(calls or {}))
         self.user = dict(user_fns or {})   # python function name -> (lean name, [keyword order])
@@ -69,7 +70,11 @@ class Fn:
         if isinstance(n, ast.Constant) and isinstance(n.value, (int, float)) and not isinstance(n.value, bool):
             v = n.value
             if isinstance(v, int):
-                return f"({v} : ℝ)"
+                if self.ty in ("ℕ", "Nat") and v < 0:
+                    raise Untranslatable("negative literal in natural-number arithmetic")
+                return f"({v} : {self.ty})"
+            if self.ty != "ℝ":
+                raise Untranslatable("float literal in integer arithmetic")
             r = repr(v)
             if "e" in r or "inf" in r or "nan" in r:
                 raise Untranslatable("float literal " + r)
@@ -86,7 +91,7 @@ class Fn:
                 if k not in table:
                     raise Untranslatable(f"exponent {k}")
                 return table[k]
-            ops = {ast.Add: "+", ast.Sub: "-", ast.Mult: "*", ast.Div: "/"}
+            ops = {ast.Add: "+", ast.Sub: "-", ast.Mult: "*", ast.Div: "/"} if self.ty == "ℝ" else {ast.Add: "+", ast.Mult: "*", ast.FloorDiv: "/", ast.Mod: "%"}
             for t, s in ops.items():
                 if isinstance(n.op, t):
                     return f"({self.expr(n.left)} {s} {self.expr(n.right)})"
@@ -165,8 +170,8 @@ def find_function(tree, name, cls=None):
     return fs[0]
 
 
-def emit(lean_name, params, fn_ast, env, result=None, user_fns=None, with_phi=False, doc=""):
-    f = Fn(env, user_fns=user_fns)
-    body = f.block(fn_ast.body, result)
-    ps = (["(phi : ℝ → ℝ)"] if with_phi else []) + [f"({p} : ℝ)" for p in params]
-    return (f"/-- {doc} -/\n" if doc else "") + f"noncomputable def {lean_name} " + " ".join(ps) + " : ℝ :=\n  " + body + "\n"
+def emit(lean_name, params, fn_ast, env, result=None, user_fns=None, with_phi=False, doc="", ty="ℝ", stmts=None):
+    f = Fn(env, user_fns=user_fns, ty=ty)
+    body = f.block(fn_ast.body if stmts is None else stmts, result)
+    ps = (["(phi : ℝ → ℝ)"] if with_phi else []) + [f"({p} : {ty})" for p in params]
+    return (f"/-- {doc} -/\n" if doc else "") + ("noncomputable " if ty == "ℝ" else "") + f"def {lean_name} " + " ".join(ps) + f" : {ty} :=\n  " + body + "\n"
